@@ -1,3 +1,6 @@
+mod c04;
+mod c05;
+mod c11;
 mod c16;
 mod c17;
 mod debug;
@@ -10,6 +13,9 @@ fn main() {
     mc_core::quiet_panics();
     let rest = &args[1..];
     match prop.as_str() {
+        "C04" => c04::run(rest),
+        "C05" => c05::run(rest),
+        "C11" => c11::run(rest),
         "C16" => c16::run(rest),
         "C16-worker" => c16::worker(rest),
         "C17" => c17::run(rest),
